@@ -1,6 +1,7 @@
 package main
 
 import (
+	"encoding/json"
 	"fmt"
 
 	"github.com/weedbox/pokerface"
@@ -466,6 +467,15 @@ func (m *C06Mon) Stuck(h *Hand, why string) {
 	h.Fail("C06/"+key, opCause(h.lastOp()), why)
 }
 
+// the hand is waiting for one thing; an operation that is not that thing was accepted
+func (m *C06Mon) UnexpectedAccepted(h *Hand, op Op, ev string) {
+	via := "game"
+	if op.Seat >= 0 {
+		via = "player-handle"
+	}
+	h.Fail("C06/unexpected-operation-accepted", fmt.Sprintf("op=%s,via=%s", op.Name, via), fmt.Sprintf("the hand was waiting at %s and accepted %+v", ev, op))
+}
+
 func (m *C06Mon) Begin(h *Hand) {
 	s := h.G.GetState()
 	m.stage = stageOf(s)
@@ -553,6 +563,39 @@ func (m *C06Mon) After(h *Hand, pre *pokerface.GameState, op Op, err error, post
 }
 
 func (m *C06Mon) End(h *Hand, s *pokerface.GameState) {
+	// "with a settlement result": a result that accounts for the pots of this hand - every chip the
+	// pots hold is awarded to somebody (a hand resumed from its JSON state right before the settling
+	// Next() has to settle the same pots)
+	if s.Result != nil {
+		// (the per-pot figures of the result are not reliable as gross shares - DESIGN 6.4 - so what is
+		// required is what must hold of any settlement: every seat is listed, and a player who folded and
+		// whose chips were all covered by somebody still in the hand has lost exactly those chips)
+		h.Rep.Inc("settlement_results_checked")
+		if len(s.Result.Players) != len(s.Players) {
+			h.Fail("C06/result-does-not-settle", "seats-listed", fmt.Sprintf("the hand closed with a result that lists %d of %d seats", len(s.Result.Players), len(s.Players)))
+			return
+		}
+		var cover int64
+		for _, p := range s.Players {
+			if !p.Fold && p.Pot+p.Wager > cover {
+				cover = p.Pot + p.Wager
+			}
+		}
+		for _, pr := range s.Result.Players {
+			if pr.Idx < 0 || pr.Idx >= len(s.Players) {
+				continue
+			}
+			p := s.Players[pr.Idx]
+			c := p.Pot + p.Wager
+			if p.Fold && c > 0 && c <= cover {
+				h.Rep.Inc("folded_contributions_checked")
+				if pr.Changed != -c {
+					h.Fail("C06/result-does-not-settle", fmt.Sprintf("folded-chips,reloaded=%v", traceHasKind(h, "reload")), fmt.Sprintf("seat %d folded after putting in %d chips, all covered by a player still in the hand, but the result changes its chips by %d\n result=%s", pr.Idx, c, pr.Changed, mustJSON(s.Result)))
+					return
+				}
+			}
+		}
+	}
 	// from then on it accepts nothing
 	g := h.G
 	before := snapJSON(s)
@@ -562,6 +605,9 @@ func (m *C06Mon) End(h *Hand, s *pokerface.GameState) {
 		for i := range s.Players {
 			ops = append(ops, Op{Name: a, Seat: i, Amt: s.Status.CurrentWager + 20})
 		}
+	}
+	for i := range s.Players {
+		ops = append(ops, Op{Name: "payante", Seat: i}, Op{Name: "payblinds", Seat: i})
 	}
 	for _, op := range ops {
 		var err error
@@ -604,4 +650,18 @@ func maxWager(s *pokerface.GameState) int64 {
 // a getter that rewrites the state (for example the offered actions of the seat to act)
 func (m *C04Mon) QueryChanged(h *Hand, what string) {
 	h.Fail("C04/state-changed-without-operation", "by=read-only-query", what)
+}
+
+func traceHasKind(h *Hand, kind string) bool {
+	for _, t := range h.Trace {
+		if t.Kind == kind {
+			return true
+		}
+	}
+	return false
+}
+
+func mustJSON(v interface{}) string {
+	b, _ := json.Marshal(v)
+	return string(b)
 }
